@@ -78,9 +78,13 @@ CHECKS["C02"] = Spec(
     prop_file="C02.v",
     weights=dict(put=34, get=12, has=3, size=3, remove=12, flush=10, reopen=9, igc=4, pgc=4, iter=1),
     gen_kw=dict(sweep_p=0.6),
+    igc_merge_p=0.12,
     keep=("res", "tbl"),
     aspects=("map", "paths"),
     witnesses=["F8-close-writes-index-before-primary", "F17-close-vs-relocation"],
+    tools=["sthdrive", "witness", "closedrive"],
+    skeleton="C17",          # the model's Close is one step with the collectors stopped: Close must stop them BEFORE it writes (wf_C17)
+    extra=lambda ctx: _close_check(ctx),
     nontrivial=lambda t, r: _count_ops(t, ("reopen",)) >= 1 and _count_ops(t, ("put",)) >= 3 and _count_ops(t, ("remove", "pgc", "igc")) >= 1,
     rule=_KEYS_RULE + "Close+reopen at random positions through the snapshot path, the rescan path (snapshot deleted) and with a truncated snapshot; "
          "at every reopen the OTHER path is opened on a copy and bucket tables + every Get are compared; Close is called twice; "
@@ -90,6 +94,7 @@ CHECKS["C04"] = Spec(
     prop_file="C04.v",
     weights=dict(put=34, get=10, has=2, size=2, remove=14, flush=12, igc=8, pgc=12, reopen=2, iter=1),
     gen_kw=dict(sweep_p=0.7, pmax_choices=(1, 60, 100, 100, 300, 300), imax_choices=(1, 40, 100, 300)),
+    igc_merge_p=0.1,
     # index-GC heavy variant: many buckets, one flush per write or two, several records per index file, repeated cycles
     variants=[(0.35, dict(weights=dict(put=30, remove=8, flush=30, igc=22, get=6, pgc=3, reopen=2),
                           gen_kw=dict(sweep_p=0.5, imax_choices=(64, 100, 150, 200), pmax_choices=(300, 1 << 30), first=(3, 4, 5, 6, 7, 8), nops=(30, 80)))),
@@ -583,6 +588,74 @@ def _model_case(txt, r):
             exp.append("ROk" if t["res"] == "ROk" else "RErr")
     return "  ([%s],\n   [%s],\n   [%s]%%nat,\n   [%s])" % ("; ".join(setup), "; ".join(calls), "; ".join(map(str, sched)), "; ".join(exp))
 
+def _gc_model_case(txt, r):
+    """Translate a finished run of a gcmodel=<nsup> scenario (a caller or two on K next to one primary GC cycle that relocates K's first record)
+    into a case of ConcGC.gc_case: abstract keys, values and locations; the observed events become 'run thread t until it has done X'."""
+    m = re.search(r"gcmodel=(\d+)", txt.split("\n")[0])
+    if not m:
+        return None
+    nsup = int(m.group(1))
+    keys, vals = {}, {}
+    def kid(h):
+        return keys.setdefault(h, len(keys) + 1)
+    def vid(h):
+        return vals.setdefault(h, len(vals) + 1)
+    setup, calls, names, kinds = [], [], [], []
+    for l in txt.split("\n"):
+        f = l.split()
+        if not f:
+            continue
+        if f[0] == "setup" and f[1] == "put":
+            setup.append("APut %d %d" % (kid(f[2]), vid(f[3])))
+        if f[0] == "thread":
+            names.append(f[1]); kinds.append(f[2])
+            if f[2] == "put":
+                calls.append("APut %d %d" % (kid(f[3]), vid(f[4])))
+            elif f[2] in ("get", "has", "size"):
+                calls.append("AGet %d" % kid(f[3]))
+            elif f[2] == "remove":
+                calls.append("ARemove %d" % kid(f[3]))
+            elif f[2] == "pgc":
+                calls.append("APgc %d [%d]" % (nsup, nsup))      # the hand-over: the setup's nsup entries; the candidate: location nsup = K's first record
+            else:
+                return None
+    wkeys = collections.Counter(l.split()[3] for l in txt.split("\n") if l.startswith("thread ") and l.split()[2] in ("put", "remove"))
+    lock_waiters = {l.split()[1] for l in txt.split("\n") if l.startswith("thread ") and l.split()[2] in ("put", "remove") and wkeys[l.split()[3]] > 1}
+    by_design = all(n in lock_waiters for n in r.get("quiet_threads", ["?"]))
+    if r["stuck"] or (r.get("quiet_timeouts", 1) and not by_design) or r.get("unfinished_at_free_run", 1):
+        return None
+    idx = {n: i for i, n in enumerate(names)}
+    looks = collections.Counter()
+    sched = []
+    for e in r["events"] or []:
+        t, pt = idx[e["t"]], e["point"]
+        kind = kinds[t]
+        if pt == "index.Get.afterReadBucketInfo":
+            looks[t] += 1
+            # Has / GetSize ask the index whether the location was superseded (a lookup of their own) before they look the key up again
+            sched.append((t, "TStep" if kind in ("has", "size") and looks[t] % 2 == 0 else "TLook"))
+        elif pt == "store.Put.afterPrimaryPut":
+            sched.append((t, "TAlloc"))
+        elif pt == "freelist.ToGC.afterRename":
+            sched.append((t, "THand"))
+        elif pt == "gc.afterFreeList":
+            sched.append((t, "TKilled"))
+        elif pt == "gc.reap.beforeUpdateIndex":
+            sched.append((t, "TCopy"))
+        elif pt == "done":
+            sched.append((t, "TDone"))
+    exp = []
+    for t in r["threads"]:
+        if t["res"] != "ROk":
+            exp.append("AErr")
+        elif t["op"] in ("put", "pgc"):
+            exp.append("AOk")
+        elif t["op"] == "get":
+            exp.append("AVal (Some %d)" % vid(t["out"]) if t["found"] else "AVal None")
+        else:
+            exp.append("ABool %s" % ("true" if t["found"] else "false"))
+    return "  ([%s],\n   [%s],\n   [%s]%%nat,\n   [%s])" % ("; ".join(setup), "; ".join(calls), "; ".join("(%d, %s)" % x for x in sched), "; ".join(exp))
+
 def _conc_scenarios(rng, n, gc):
     scen = []
     for _ in range(n):
@@ -607,8 +680,13 @@ def _conc_scenarios(rng, n, gc):
                 th.append(("T1", rng.choice(("get %s" % K, "has %s" % K, "flush", "get %s" % others[0]))))
             names = [t[0] for t in th]
             sched = [rng.choice(names) for _ in range(rng.randint(6, 40))]
-            scen.append("cfg bits=8 imax=1048576 pmax=%d timeout_ms=3000\n" % pmax + "\n".join(setup) + "\n" +
-                        "".join("thread %s %s\n" % t for t in th) + "schedule " + " ".join(sched) + "\n" + ("free flush\n" if rng.random() < 0.3 else ""))
+            # without a Flush thread the cycle's hand-over is exactly the setup's entries and its only relocation candidate is K's first record:
+            # such a run is replayed on the location-protocol model (ConcGC.v); everybody finishes inside the schedule
+            gcm = not any(t[1] == "flush" for t in th) and rng.random() < 0.8
+            if gcm:
+                sched += names * 14
+            scen.append("cfg bits=8 imax=1048576 pmax=%d timeout_ms=3000%s\n" % (pmax, " quiet_ms=3000 gcmodel=%d" % nsup if gcm else "") + "\n".join(setup) + "\n" +
+                        "".join("thread %s %s\n" % t for t in th) + "schedule " + " ".join(sched) + "\n" + ("free flush\n" if (not gcm and rng.random() < 0.3) else ""))
             continue
         if gc and fam < 0.6:
             # flush-versus-index-GC: several index files (tiny limit), dirty buckets waiting to be flushed, a Flush and an index cycle
@@ -786,6 +864,21 @@ def _lin_check(ctx, gc):
                 mterms.append((txt, mc))
     mism, coq_s = C.coq_replay(mterms, wd, header="From STH Require Import Lex Index Store Refine Conc Conc2 ConcReplay.\nFrom Coq Require Import List NArith. Import ListNotations. Open Scope N_scope.\n",
                                ctor_list="conc_case", fn="conc_mismatches") if mterms else ([], 0.0)
+    gterms = []
+    if gc:
+        for (txt, r, raw) in res:
+            if " gcmodel=" in txt.split("\n")[0]:
+                gcase = _gc_model_case(txt, r)
+                if gcase:
+                    gterms.append((txt, gcase))
+    gmism, gcoq_s = C.coq_replay(gterms, wd, header="From STH Require Import Log Conc ConcGC.\nFrom Coq Require Import List NArith. Import ListNotations. Open Scope N_scope.\n",
+                                 ctor_list="gc_case", fn="gc_mismatches") if gterms else ([], 0.0)
+    if gmism and not viol:
+        txt = gmism[0][0]
+        rp = C.save_replay(prop, "gccorr-%s.scn" % hashlib.sha1(txt.encode()).hexdigest()[:10],
+                           "# correspondence obligation broken: the location-protocol model (coq/theories/ConcGC.v, aexec_tags) run on the schedule observed at the yield points returns other results than the real store\n"
+                           "# on %d of %d replayed scenarios; the linearizability oracle found no failing scenario among %d\n%s" % (len(gmism), len(gterms), len(scen), txt))
+        viol.append(("correspondence: location-protocol model (primary GC as threads) and implementation disagree on %d of %d scenarios" % (len(gmism), len(gterms)), rp, False))
     if mism and not viol:
         txt = mism[0][0]
         rp = C.save_replay(prop, "conccorr-%s.scn" % hashlib.sha1(txt.encode()).hexdigest()[:10],
@@ -793,8 +886,9 @@ def _lin_check(ctx, gc):
                            "# on %d of %d replayed scenarios; the linearizability oracle found no failing scenario among %d\n%s" % (len(mism), len(mterms), len(scen), txt))
         viol.append(("correspondence: atomic-step model and implementation disagree on %d of %d scenarios" % (len(mism), len(mterms)), rp, False))
     return viol, {"evaluations": len(scen), "distinct_nontrivial": len(nontriv), "scenarios_with_real_interleaving": interleaved,
-                  "scenarios_replayed_on_the_atomic_step_model": len(mterms), "traces_validated_against_impl": len(mterms) - len(mism),
-                  "correspondence_mismatches": len(mism), "coq_replay_s": round(coq_s, 1),
+                  "scenarios_replayed_on_the_atomic_step_model": len(mterms), "traces_validated_against_impl": len(mterms) - len(mism) + len(gterms) - len(gmism),
+                  "scenarios_replayed_on_the_location_protocol_model": len(gterms),
+                  "correspondence_mismatches": len(mism) + len(gmism), "coq_replay_s": round(coq_s + gcoq_s, 1),
                   "samples": [{"scenario": scen[-1].strip().split("\n")}],
                   "schedule_rule": "2-4 calls (Put/Get/Has/GetSize/Remove/Flush" + (" + 1-2 GC cycles (primary / index) over flushed garbage in small files" if gc else "") +
                                    ") on 2-4 keys of one bucket sharing leading bytes (in 30% of the scenarios several writers may address one key), stepped through the yield points in a random order of 6-45 steps, "
@@ -976,7 +1070,9 @@ def _close_check(ctx):
     """C17: closedrive scenarios on the real store (goroutine / descriptor / directory census after Close, failed opens, Close while a cycle is parked)."""
     prop, tier, wd, rng = ctx["prop"], ctx["tier"], ctx["wd"], ctx["rng"]
     C.go_build(["closedrive"])
-    seeds = [ctx["seed"] * 100 + i for i in range(2 if tier == "quick" else 40)]
+    seeds = [ctx["seed"] * 100 + i for i in range((1 if prop == "C02" else 2) if tier == "quick" else 40)]
+    if ctx.get("replay"):
+        seeds = seeds[:1] if "close-" in os.path.basename(ctx["replay"]) else []
     from concurrent.futures import ThreadPoolExecutor
     def one(sd):
         p = subprocess.run([os.path.join(C.BIN, "closedrive"), str(sd)], env=dict(os.environ, GOLOG_LOG_LEVEL="fatal"), stdout=subprocess.PIPE, stderr=subprocess.STDOUT, text=True, timeout=900)
@@ -996,14 +1092,17 @@ def _close_check(ctx):
                 npass += 1
             elif m.group(2) == "SKIP":
                 skipped += 1
+            elif m.group(3).startswith("contents:") != (prop == "C02"):
+                pass        # what a reopen finds after such a Close is C02's matter, everything else C17's (oracles are per property)
             elif len(viol) < 3:
-                rp = C.save_replay(prop, "close-%s-%d.txt" % (m.group(1), sd), "C17 fails on the implementation: scenario %s (seed %d): %s\nreplay: cd /verif && build/bin/closedrive %d %s\n" % (m.group(1), sd, m.group(3), sd, m.group(1)))
+                rp = C.save_replay(prop, "close-%s-%d.txt" % (m.group(1), sd), prop + " fails on the implementation: scenario %s (seed %d): %s\nreplay: cd /verif && build/bin/closedrive %d %s\n" % (m.group(1), sd, m.group(3), sd, m.group(1)))
                 viol.append(("closedrive %s: %s" % (m.group(1), m.group(3)), rp, True))
     return viol, {"evaluations": n, "distinct_nontrivial": len(names), "scenarios_passed": npass, "scenarios_skipped": skipped,
                   "samples": [{"scenarios": sorted(names)}],
                   "scenario_rule": "open/Start/150 random calls/Close x4 with 10 ms GC and 4 ms sync intervals; Close without Start; 5 kinds of failing open x3; Close issued while the real background "
                                    "primary collector is parked at gc.reap.beforeUpdateIndex / gc.afterFreeList and the index collector at index.gc.beforeReap (Close must block until released); Close while a "
-                                   "rate-limited writer waits; after each: no goroutine of the module alive (stack dump), no descriptor into the store directory (/proc/self/fd), directory unchanged for 3 GC intervals"}
+                                   "rate-limited writer waits; after each: no goroutine of the module alive (stack dump), no descriptor into the store directory (/proc/self/fd), directory unchanged for 3 GC intervals; "
+                                   "(C02) after a Close that overlapped a primary GC cycle the store is reopened by rescan and every key read back"}
 
 CHECKS["C17"] = Spec(
     prop_file="C17.v",
@@ -1168,6 +1267,7 @@ CHECKS["C07"] = Spec(
     prop_file="C07.v",
     weights=dict(put=36, get=4, remove=14, flush=14, atflush=3, igc=9, pgc=9, reopen=5, rebits=1),
     gen_kw=dict(pmax_choices=(1, 60, 100, 300), imax_choices=(1, 40, 64, 100, 150, 300), imm_p=0.1),
+    igc_merge_p=0.08,
     variants=[(0.3, dict(weights=dict(put=30, remove=8, flush=30, igc=22, get=4, pgc=4, reopen=3),
                          gen_kw=dict(imax_choices=(52, 64, 76, 100, 150), pmax_choices=(300, 1 << 30), first=(3, 4, 5, 6, 7, 8), nops=(30, 80)))),
               (0.3, dict(weights=dict(put=40, remove=14, flush=12, pgc=5, pgcl=7, pgcb=2, igcb=8, igc=4, reopen=3)))],
@@ -1542,6 +1642,8 @@ def run_check(prop, tier, seed, replay, t0):
                 kw = dict(kw, **alt.get("gen_kw", {}))
                 break
         t = gen.history(rng, w, **kw)
+        if getattr(spec, "igc_merge_p", 0) and rng.random() < spec.igc_merge_p:
+            t = gen.igc_merge_history(rng)
         if getattr(spec, "tail", None) == "drain":
             t = gen.add_drain(rng, t)
         texts.append(t)
